@@ -167,6 +167,11 @@ func runC06(r *Run) {
 		// by - and therefore computable from - the public values of another login)
 		overlappingLogins(r, "C06")
 	}
+	if r.unknownViolations() == 0 {
+		// the session id is not obtainable from what travels outside the cookie: a callback URL (state, code) replayed
+		// without the cookie gets neither the pending login's session id nor its session
+		cookielessCallback(r, "C06")
+	}
 	// ---- (2) search on the real wiring with the real entropy source
 	nLog := scale(r, 600, 6000)
 	logins, err := doLogins(nLog, 8)
